@@ -188,3 +188,66 @@ func isParam(fi *core.FuncInfo, obj types.Object) bool {
 	}
 	return sig.Recv() != nil && sig.Recv() == obj
 }
+
+// loopsVisitAll: in fi, every range loop over a field named in fields (e.g. diagram.Shapes) visits all elements —
+// its body has no continue, break, goto or return (function literals excluded). Returns the number of loops found.
+func loopsVisitAll(c *core.Check, rule string, fi *core.FuncInfo, fields []string, consequence string) int {
+	n := 0
+	counts := map[string]int{}
+	ast.Inspect(fi.Decl.Body, func(x ast.Node) bool {
+		rs, ok := x.(*ast.RangeStmt)
+		if !ok {
+			return true
+		}
+		sel, ok := ast.Unparen(rs.X).(*ast.SelectorExpr)
+		if !ok {
+			return true
+		}
+		hit := false
+		for _, f := range fields {
+			if sel.Sel.Name == f {
+				hit = true
+			}
+		}
+		if !hit {
+			return true
+		}
+		n++
+		skip := ""
+		ast.Inspect(rs.Body, func(y ast.Node) bool {
+			switch s := y.(type) {
+			case *ast.FuncLit:
+				return false
+			case *ast.RangeStmt, *ast.ForStmt:
+				// a break/continue of an inner loop concerns the inner loop; returns still leave the outer one
+				ast.Inspect(y, func(z ast.Node) bool {
+					if _, ok := z.(*ast.FuncLit); ok {
+						return false
+					}
+					if r, ok := z.(*ast.ReturnStmt); ok && skip == "" {
+						skip = fmt.Sprintf("return (line %d)", c.P.Fset.Position(r.Pos()).Line)
+					}
+					return true
+				})
+				return false
+			case *ast.BranchStmt:
+				if skip == "" {
+					skip = fmt.Sprintf("%s (line %d)", s.Tok, c.P.Fset.Position(s.Pos()).Line)
+				}
+			case *ast.ReturnStmt:
+				if skip == "" {
+					skip = fmt.Sprintf("return (line %d)", c.P.Fset.Position(s.Pos()).Line)
+				}
+			}
+			return true
+		})
+		key := fmt.Sprintf("visit-all:%s:range %s", fname(fi), exprStr(rs.X))
+		counts[key]++
+		if counts[key] > 1 {
+			key = fmt.Sprintf("%s#%d", key, counts[key])
+		}
+		c.Decide(skip == "", rule, key, rs.Pos(), "no element is skipped", fmt.Sprintf("the loop over %s leaves out elements (%s): %s", exprStr(rs.X), skip, consequence))
+		return true
+	})
+	return n
+}
